@@ -1354,6 +1354,20 @@ def main():
             dict(axis="stride", n_ops=3, kernel=(3, 3), oc=32, ic=16, hw=(12, 12), dtype="int8"),
             dict(axis="ifm_bits", n_ops=2, kernel=(3, 3), oc=32, ic=16, hw=(8, 8)),
             dict(axis="same", n_ops=3, kernel=(3, 3), oc=80, ic=32, hw=(8, 8), dtype="int8"),
+            # part 2 (harness/netgen_shared.py): every weight re-laying rewrite, users differing in the parameter the rewrite reads
+            dict(axis="stride_ge4_same_vs_valid", n_ops=2, kernel=(1, 6), oc=8, ic=3, hw=(8, 16), dtype="int8", per_channel=False),
+            dict(axis="stride_ge4_same_vs_valid", n_ops=4, dtype="int8"),
+            dict(axis="padding", n_ops=4, dtype="int8"),
+            dict(axis="stride_ge4_ifm_width", n_ops=3, dtype="int8"),
+            dict(axis="kernel_larger_than_ifm", n_ops=3),
+            dict(axis="dilation_hw", n_ops=4, dtype="int8", dilations=[(3, 3), (3, 1), (1, 3), (6, 6)]),
+            dict(axis="groups", n_ops=3, dtype="int8"),
+            dict(axis="dw_mult", n_ops=3),
+            dict(axis="dw_params", n_ops=3),
+            dict(axis="dw_vs_conv", n_ops=3, dtype="int8"),
+            dict(axis="fc_ifm_shape", n_ops=3),
+            dict(axis="conv1x1_fc", n_ops=3, dtype="int8"),
+            dict(axis="tconv_params", n_ops=3, dtype="int8"),
         ]
         nets = []
         for j, kw in enumerate(fixed):
